@@ -587,9 +587,9 @@ class Box(rigid.Box, Diagram):
     def grad(self, var, **params):
         if var not in self.free_symbols:
             return self.sum([], self.dom, self.cod)
-        return self.bubble(
-            func=lambda x: getattr(x, "diff", lambda _: 0)(var),
-            drawing_name="$\\partial {}$".format(var))
+        name = "{}.grad({})".format(self.name, var)
+        array = self.eval().grad(var, **params).array
+        return Box(name, self.dom, self.cod, list(array.flatten()))
 
     def __repr__(self):
         return super().__repr__().replace("Box", "tensor.Box")
